@@ -43,6 +43,7 @@ var (
 	tracebackBlacklist = map[string]bool{
 		"pgregory.net/rapid.(*customGen[...]).maybeValue.func1": true,
 		"pgregory.net/rapid.runAction.func1":                    true,
+		"pgregory.net/rapid.checkOnce.func2":                    true,
 	}
 )
 
@@ -365,12 +366,27 @@ func checkOnce(t *T, prop func(*T)) (err *testError) {
 	if t.tbLog {
 		t.tb.Helper()
 	}
-	defer func() { err = panicToError(recover(), 3) }()
+
+	var propErr *testError // how prop itself ended, if it panicked
+	defer func() {
+		err = panicToError(recover(), 3)
+		// A failure of the property itself is the verdict of the test case, whatever the cleanup functions
+		// do afterwards: in particular a skip raised during cleanup does not hide a panic of the property.
+		if propErr != nil && !propErr.isInvalidData() {
+			err = propErr
+		}
+	}()
 
 	// Runs after cleanup: a non-fatal failure recorded on t falsifies this test case even if it was
 	// signalled from a cleanup function or was followed by a skip, and never leaks into the next one.
 	defer t.failOnError()
 	defer t.cleanup()
+	defer func() {
+		if r := recover(); r != nil {
+			propErr = panicToError(r, 3)
+			panic(r)
+		}
+	}()
 	prop(t)
 
 	return nil
